@@ -129,6 +129,17 @@ def vm_flags_rule(chk):
                 continue
             st = m.before(i) or frozenset()
             which = [f_[1] for f_ in st if f_[0] == "index-is"]
+            if not which:
+                # switch form: the nearest preceding `case RegType::kVecNNN:` of a switch over the index type that encloses this line
+                best = None
+                for sx in fn.ex.values():
+                    if sx["k"] == "s:SwitchStmt" and "index" in fn.text(sx.get("cond", 0)):
+                        for c in sx["cases"]:
+                            if c.get("l", 0) <= x.get("l", 0) and (best is None or c["l"] > best[0]):
+                                best = (c["l"], c.get("n"))
+                if best and best[1] in want:
+                    # no other case / default label between that case label and the assignment
+                    which = [best[1]]
             nsite += 1
             ok = len(which) == 1 and val == want[which[0]]
             chk.ob(R, "validate|index=%s" % (which[0] if which else "?"), ok, loc=fn.loc(i),
